@@ -231,7 +231,11 @@ pub struct FunCase {
     pub fun: Fun,
 }
 
-const SPECS: [&str; 22] = ["%Y", "%y", "%m", "%d", "%H", "%M", "%S", "%j", "%W", "%U", "%u", "%w", "%a", "%b", "%s", "%F", "%T", "%%", "%-d", "%-m", "%-H", "%-j"];
+const SPECS: [&str; 39] = [
+    "%Y", "%y", "%m", "%d", "%H", "%M", "%S", "%j", "%W", "%U", "%u", "%w", "%a", "%b", "%s", "%F", "%T", "%%", "%-d", "%-m", "%-H", "%-j",
+    // zone-bearing specifiers (every zerv date is UTC), names, 12-hour clock, space padding, composites
+    "%z", "%:z", "%Z", "%+", "%e", "%k", "%I", "%l", "%p", "%A", "%B", "%h", "%C", "%R", "%D", "%z", "%Z",
+];
 const BAD_SPECS: [&str; 6] = ["%Q", "%", "%-", "%!", "%Y%", "%E"];
 
 fn fmt_strategy() -> BoxedStrategy<(Option<String>, bool)> {
@@ -478,7 +482,7 @@ pub fn property() -> Property {
     .floor(0.5);
     Property {
         id: "C15",
-        rule: "cases = (a) Zerv objects (arbitrary valid schemas x vars, clock-free) probed with templates for semver / pep440 / the *_obj parts / docker / every scalar variable, each probe between ASCII sentinels; (a') whole `zerv version` runs (source none / stdin, presets and custom schemas, overrides, bumps, schema-section overrides and bumps): semver / pep440 / recomposed parts / docker / scalars printed by a template against --output-format semver / pep440 / zerv of the same command line; (a'') templates as values of override / bump flags (--major '{{ minor + 1 }}', --bump-minor '{{ hash_int(...) }}', --pre-release-label '{% if ... %}'): the run must equal the run with the literal value the template evaluates to on the input object; (a''') literal text before and after a placeholder (file-name endings such as .html/.xml, HTML-special characters) is copied and leaves the placeholder's value unchanged; (b) function calls hash, hash_int, prefix, prefix_if, sanitize (presets and knobs), format_timestamp (22 strftime specifiers in random combinations, the two compact names, default, and invalid specifiers) with the value travelling as a variable (arbitrary Unicode text). Oracle: equality with --output-format output for the same stdin object (differential), recomposition identities, the input variables, reference models (oracle::sanitize, oracle::calendar) and the stated length/digit contracts; invalid format strings must give an error, not a panic. Non-trivial = object whose SemVer rendering has a pre-release or build part (a); every function case (b); distinct = distinct cases.",
+        rule: "cases = (a) Zerv objects (arbitrary valid schemas x vars, clock-free) probed with templates for semver / pep440 / the *_obj parts / docker / every scalar variable, each probe between ASCII sentinels; (a') whole `zerv version` runs (source none / stdin, presets and custom schemas, overrides, bumps, schema-section overrides and bumps): semver / pep440 / recomposed parts / docker / scalars printed by a template against --output-format semver / pep440 / zerv of the same command line; (a'') templates as values of override / bump flags (--major '{{ minor + 1 }}', --bump-minor '{{ hash_int(...) }}', --pre-release-label '{% if ... %}'): the run must equal the run with the literal value the template evaluates to on the input object; (a''') literal text before and after a placeholder (file-name endings such as .html/.xml, HTML-special characters) is copied and leaves the placeholder's value unchanged; (b) function calls hash, hash_int, prefix, prefix_if, sanitize (presets and knobs), format_timestamp (37 strftime specifiers incl. the zone-bearing ones in random combinations, the two compact names, default, and invalid specifiers) with the value travelling as a variable (arbitrary Unicode text). Oracle: equality with --output-format output for the same stdin object (differential), recomposition identities, the input variables, reference models (oracle::sanitize, oracle::calendar) and the stated length/digit contracts; invalid format strings must give an error, not a panic. Non-trivial = object whose SemVer rendering has a pre-release or build part (a); every function case (b); distinct = distinct cases.",
         assumptions: vec![
             "objects are clock-free (dirty is not true), so separate runs are comparable",
             "unset variables render as the empty string (Tera prints null as empty)",
